@@ -11,7 +11,7 @@ echo "== demo on unmodified HEAD:"; (cd "$d" && PYTHONPATH="$d" timeout 300 /ven
 if ! git -C "$d" init -q 2>/dev/null; then :; fi
 (cd "$d" && git apply --whitespace=nowarn "$dir/patch.diff") || { echo "PATCH DOES NOT APPLY"; rm -rf "$d"; exit 3; }
 echo "== test suite with patch:"; (cd "$d" && PYTHONPATH="$d" /venv/bin/python -m pytest -q -p no:cacheprovider tests/python 2>&1 | tail -1)
-echo "== demo with patch:"; (cd "$d" && PYTHONPATH="$d" timeout 300 /venv/bin/python -B "$dir/demo.py" 2>&1 | tail -3)
+echo "== demo with patch:"; (cd "$d" && PYTHONPATH="$d" timeout 300 /venv/bin/python -B "$dir/demo.py" > "$d/.demo.out" 2>&1; echo "demo exit code with patch: $?"; tail -3 "$d/.demo.out")
 echo "== checks against the patched tree (tier ${TIER:-quick}, seed ${VERIF_SEED:-0}):"
 work=$(mktemp -d /tmp/rtseedout.XXXXXX)
 for c in $checks; do echo $c; done | xargs -P 8 -I{} bash -c "RTVERIF_REPO=$d RTVERIF_QUICK_S=120 $here/check {} --tier ${TIER:-quick} > $work/{}.out 2>&1; echo \$? > $work/{}.rc"
